@@ -25,7 +25,7 @@ def stepE {α} (ex : Nat → Bool) (step : St α → Upd α → St α × List (W
 def runBatchE {α} (D : Dom α) (expired : Bool) (ex : Nat → Bool) (levels : List (List (Upd α))) (s : St α) :
     St α × List (Write α) :=
   let r1 := runPass (stepE ex (step1 D expired)) levels.flatten { s with skip := [] }
-  let r2 := runPass (stepE ex (step2 D expired)) levels.reverse.flatten r1.1
+  let r2 := runPass (stepE ex (step2 D expired)) (sweep2 levels) r1.1
   (r2.1, r1.2 ++ r2.2)
 
 end KoordVerif.C12
